@@ -127,6 +127,15 @@ def kani_counterexamples(hlist, files, evdir, pid):
                   'playback_panics': re.findall(r"panicked at [^\n]*\n[^\n]*", log)[:6]}
         if not by[n]:
             replay['verifier_output'] = out[-6000:]
+        if not reproduced and h.get('oracle'):
+            # the harness abstracts field multiplication (contract stub), so CBMC's model need not replay
+            # natively: let the executable form of the contract look for a failing input on the real code
+            try:
+                found, olog, inp = run_oracle(h['oracle'], None)
+                replay['oracle'] = {'inject': h['oracle']['inject'], 'test': h['oracle']['test'], 'log': olog[-6000:], 'failing_input': inp}
+                reproduced = reproduced or found
+            except Exception as e:
+                replay['oracle'] = {'error': str(e)}
         path = os.path.join(evdir, 'replay', '%s-%s.json' % (pid, n))
         json.dump(replay, open(path, 'w'), indent=1)
         ret[n] = (path, bool(reproduced))
